@@ -9,6 +9,7 @@ import RactorModel.Lemmas.FactoryNoDrop
 import RactorModel.Lemmas.FactoryPort
 import RactorModel.Lemmas.FactoryReason
 import RactorModel.Lemmas.FactoryHeartbeat
+import RactorModel.Lemmas.FactoryReject
 
 /-!
 # C13 — Factory: every job meets exactly one fate, never runs twice
@@ -570,6 +571,16 @@ theorem acceptance_port_no_unrequested_answer (c : CaseCfg) (steps : List Step) 
   omega
 
 
+/-- (hand-back soundness over whole runs) For every case, EVERY op sequence and schedule: every `Some(job)` answered on an
+acceptance port (`reply id true`) is IMMEDIATELY preceded, in the history, by a discard-handler call for that very job —
+a job is handed back only by the branch that has just reported it (expired, refused while draining, rate-limited, shed), with
+that branch's reason; an accepted job (`None`) is never accompanied by a hand-back (`acceptance_port_never_both`). -/
+theorem rejected_port_follows_its_discard (c : CaseCfg) (steps : List Step) (pre post : List Ev) (id : Nat)
+    (hs : ((init c).runSteps steps).env.log = pre ++ Ev.reply id true :: post) :
+    ∃ pre' r h, pre = pre' ++ [Ev.discard r id h] :=
+  rejected_follows_discard_run c steps pre post id hs
+
+
 /-! ## Round 4, wave 2: discard reasons over whole runs -/
 
 /-- (reason soundness, RateLimited) For every case, EVERY op sequence and schedule: a discard-handler call with reason
@@ -679,3 +690,4 @@ end C13
 #print axioms C13.acceptance_port_replied_exactly_once
 #print axioms C13.dead_mans_switch_only_long_jobs
 #print axioms C13.dead_mans_switch_spares_idle
+#print axioms C13.rejected_port_follows_its_discard
